@@ -1,7 +1,13 @@
 package main
 
 import (
+	"os"
+	"path/filepath"
+	"regexp"
+	"sort"
 	"strings"
+
+	"github.com/cloudspannerecosystem/memefish/token"
 )
 
 // parserInputs is the input distribution shared by the parser-level predicates:
@@ -37,6 +43,22 @@ func parserInputs(o *propOpts, each func(e *entry, s string, origin string)) {
 	for i, st := range gSentences(o.tier, o.seed) {
 		if o.tier == "thorough" || i%2 == int(o.seed%2) {
 			each(entryByName(st.entry), st.text, "G")
+		}
+	}
+	// near misses of the words the parser compares identifiers with (IsKeywordLike / IsIdent / expectKeywordLike arguments and
+	// the scalar type names, read from parser.go): a name differing from such a word in its first or last letter, or one letter
+	// longer, is an ordinary identifier and must stay one through SQL()
+	for _, w := range parserWords() {
+		for _, v := range []string{"X" + w[1:], w[:len(w)-1] + "X", w + "X", strings.ToLower("x" + w[1:])} {
+			if v == w || token.IsKeyword(v) {
+				continue
+			}
+			each(entryByName("ParseType"), v, "nearmiss")
+			each(entryByName("ParseExpr"), "CAST(a AS "+v+")", "nearmiss")
+			each(entryByName("ParseExpr"), v+" + a."+v, "nearmiss")
+			each(entryByName("ParseExpr"), "a["+v+"]", "nearmiss")
+			each(entryByName("ParseQuery"), "SELECT "+v+", t."+v+" AS "+v+" FROM "+v+" AS "+v, "nearmiss")
+			each(entryByName("ParseDDL"), "CREATE TABLE "+v+" ("+v+" INT64, b "+v+") PRIMARY KEY ("+v+")", "nearmiss")
 		}
 	}
 	// systematic grafts: for every golden input, every node and every ABSENT optional single child, one text of the slot's type
@@ -172,5 +194,41 @@ var probes = []struct{ entry, text string }{
 var triviaFrags = []string{"-", "/", "*", "+", "a", "1", "(", ")", ",", "--c\n", "/*c*/", "//c\n", "#c\n", "/**/", "SELECT", "FROM", ".", "'s'", "<", ">", "[", "]"}
 
 var singleEdits = []string{"", "3", ",", "x", ")"}
+
+var parserWordsCache []string
+
+var parserWordRe = regexp.MustCompile(`(?:IsKeywordLike|IsIdent|expectKeywordLike|expectIdent|lookaheadKeywordLikeArg)\("([A-Za-z_0-9]+)"\)`)
+
+// parserWords: the words parser.go compares identifier tokens with, plus the scalar type names (the simpleTypes slice).
+func parserWords() []string {
+	if parserWordsCache != nil {
+		return parserWordsCache
+	}
+	b, err := os.ReadFile(filepath.Join(repoRoot(), "parser.go"))
+	seen := map[string]bool{}
+	if err == nil {
+		for _, m := range parserWordRe.FindAllStringSubmatch(string(b), -1) {
+			seen[strings.ToUpper(m[1])] = true
+		}
+		if i := strings.Index(string(b), "var simpleTypes = []string{"); i >= 0 {
+			rest := string(b)[i:]
+			if j := strings.Index(rest, "}"); j >= 0 {
+				for _, m := range regexp.MustCompile(`"([A-Z0-9_]+)"`).FindAllStringSubmatch(rest[:j], -1) {
+					seen[m[1]] = true
+				}
+			}
+		}
+	}
+	for w := range seen {
+		if len(w) >= 2 {
+			parserWordsCache = append(parserWordsCache, w)
+		}
+	}
+	sort.Strings(parserWordsCache)
+	if parserWordsCache == nil {
+		parserWordsCache = []string{}
+	}
+	return parserWordsCache
+}
 
 func r0(seed uint64) *rng { return &rng{s: seed ^ 0x5bd1e995} }
